@@ -5,7 +5,8 @@ import UmDriver.Common
 /-!
 Replays a schedule of the C11 harness on the model.
 * `init <senders> <ctrls>`: senders = `-` or comma-separated `<hint>:<innerOk>` with hint
-  `N` | `B` | `M<term>`; ctrls = `-` or comma-separated programs over `S P D R` (`_` = empty).
+  `N` | `B` | `M<term>`; ctrls = `-` or comma-separated programs over `S P D R W B` (`_` = empty;
+  `W` = poll until done, `B` = the real `pre_block` … `stop()` = `S W D`).
   Output: `ok at=<thread>@<point>,… done=<d> blk=<b> term=<t>`.
 * `s <i>` / `c <j>`: thread takes one step.  Output: `<obs> @<next point> done=… blk=… term=…`,
   or `stuck` when the thread does not exist / has finished.
@@ -32,15 +33,20 @@ def parseSender (s : String) : Option (Hint × Bool) :=
   | [h, "0"] => (parseHint h).map (·, false)
   | _ => none
 
-def parseCmd : Char → Option Cmd
-  | 'S' => some .start
-  | 'P' => some .poll
-  | 'D' => some .drop
-  | 'R' => some .stop
+/-- `W` = `while !blocking_done() {}`; `B` = the migrating task's blocking phase
+(`pre_block` = `start_blocking(); while !blocking_done() {…}`, then `pre_switch`, then
+`blocking_handle.stop()`), i.e. `start; await; drop` -/
+def parseCmd : Char → Option (List Cmd)
+  | 'S' => some [.start]
+  | 'P' => some [.poll]
+  | 'D' => some [.drop]
+  | 'R' => some [.stop]
+  | 'W' => some [.await]
+  | 'B' => some [.start, .await, .drop]
   | _ => none
 
 def parseProg (s : String) : Option (List Cmd) :=
-  if s = "_" then some [] else s.toList.mapM parseCmd
+  if s = "_" then some [] else (s.toList.mapM parseCmd).map List.flatten
 
 def parseList {α} (f : String → Option α) (s : String) : Option (List α) :=
   if s = "-" then some [] else (s.splitOn ",").mapM f
